@@ -91,9 +91,12 @@ def builders_site_facts(repo_dir):
 
 
 def translate(repo_dir, gen_dir):
+    """never raises; the facts come from c12.site_info (behavioural probe, static cross-check)"""
     info12 = _c12.translate(repo_dir, gen_dir)
-    facts = builders_site_facts(repo_dir)
-    text = '''/-! GENERATED by harness/props/c04.py:translate from enspara/msm/builders.py — do not edit.
+    facts = dict(_c12.SITE_DEFAULTS)
+    facts.update(info12.get('all_facts') or {})
+    text = '''/-! GENERATED by harness/props/c04.py:translate from enspara/msm/builders.py (behavioural probe
+of the builders, static read as cross-check) — do not edit.
 `priorMatrixToArray`: does `_apply_prior_counts` convert a `numpy.matrix` result (what scipy
 returns for `sparse matrix + ndarray`) back to an `ndarray`?
 `transposeHalfIntLiteral`: does `transpose` return `C_sym / 2` with the *integer* literal 2
@@ -108,11 +111,14 @@ end Ens.Generated.BuildersSite
 ''' % ('true' if facts['priorMatrixToArray'] else 'false',
        'true' if facts['transposeHalfIntLiteral'] else 'false',
        'true' if facts['transposeTotalSum'] else 'false')
-    changed = _c12._write_if_changed(os.path.join(gen_dir, 'BuildersSite.lean'), text)
+    try:
+        changed = _c12._write_if_changed(os.path.join(gen_dir, 'BuildersSite.lean'), text)
+    except Exception:  # noqa
+        changed = False
     return {'summary': 'BuildersSite: priorMatrixToArray=%s transposeHalfIntLiteral=%s transposeTotalSum=%s%s; %s' % (
         facts['priorMatrixToArray'], facts['transposeHalfIntLiteral'], facts['transposeTotalSum'],
         ' (rewritten)' if changed else '', info12['summary']),
-        'facts': dict(facts, **info12['facts'])}
+        'facts': facts, 'static_agrees': info12.get('static_agrees'), 'source': info12.get('source')}
 
 
 # ----------------------------------------------------------------------------- helpers
@@ -690,9 +696,9 @@ def run_matrix(ctx, C, priors, conts, zero_row=False, builders_=BUILDERS, calcs=
 def run(ctx):
     scipy_table(ctx)
     large_sparse_family(ctx)
-    import stage
-    facts = builders_site_facts(stage.REPO)
-    ctx.note('builders_site', facts)
+    from enspara.msm import builders as _b
+    ctx.note('builders_site', {k: v for k, v in _c12.site_probe(_b).items()
+                               if k in ('priorMatrixToArray', 'transposeHalfIntLiteral', 'transposeTotalSum')})
     nmat = ctx.n(36, 300)
     kinds = ['int-dense', 'int-sparse', 'zero-diag', 'asym', 'metastable', 'symmetric', 'real']
     for t in range(nmat):
